@@ -225,6 +225,27 @@ def run(ctx):
                        "to itself leaves offset + length unchecked (it can exceed 2^62-1 and overflow later arithmetic)"
                        % (sorted(ra), sorted(rb)))
     ctx.floor("R4", "offset+length bound checks in frame parsers", n4, 2)
+    # ---------------------------------------------------------------- R1 (allocation): capacity reserved from a decoded integer
+    nalloc = 0
+    for b in prog.bodies.values():
+        if b.crate != "qbase" or b.kind in ("const", "promoted") or not re.search(r"^qbase::(frame|param|packet|cid|token|varint)", b.short):
+            continue
+        for i, t in b.calls():
+            if re.search(r"Vec(<.*>|::<.*>)?::(with_capacity|reserve|reserve_exact)$|VecDeque(<.*>|::<.*>)?::(with_capacity|reserve)$|"
+                         r"BytesMut::(with_capacity|reserve)$|String::(with_capacity|reserve)$", callee(t)) and t["args"]:
+                nalloc += 1
+                a = t["args"][-1]
+                peer = False
+                for pl in deep_places(b, a, 6):
+                    for og in b.trace_local(pl[0]):
+                        if og[0] == "call" and re.search(r"VarInt::into_u64$|VarInt::into_inner$|varint::be_varint$|be_u(8|16|32|64)$", callee(og[2])):
+                            peer = True
+                if peer:
+                    ctx.touch(b)
+                    ctx.ob("R1", "%s|%s sized by a decoded integer" % (b.short, callee(t).split("::")[-1]), False, b.where(t["line"]),
+                           "the capacity argument derives from a value parsed out of the packet (up to 2^62-1) before the announced elements "
+                           "were seen: one small frame makes the decoder reserve gigabytes or panic with `capacity overflow`")
+    ctx.stats["R1.decoder_allocation_sites"] = nalloc
     # ---------------------------------------------------------------- R5 by reference
     ctx.rule("R5", "the prescribed error is raised for exactly the hostile values: operand roles and strictness of the final-size, "
                    "stream-limit and stream-count comparisons (C12-R1/R5, C11-R5 and C13-R11 obligations re-evaluated)")
